@@ -14,7 +14,7 @@ DECIDES = ('a knot vector of wrong length or decreasing order cannot reach stora
            '(strict >, all pairs covered), and returns True only after both tests (KC1); knotvector.generate returns degree + n + 1 knots on both '
            '`clamped` branches with end multiplicity degree + 1 when clamped (LY4); knotvector.normalize is the affine map (k - first)/(last - first) '
            '(AL8); both span searches implement half-open spans: comparison operators on the lower/upper knot are exactly (<, >=) resp. (<=) (HO1); '
-           'find_multiplicity compares absolute differences (TOL1); per-direction helper calls in helpers are direction-uniform (AX1); [ORDER TYPES, bounded box, exact per type] both span searches return exactly the half-open interval containing the parameter (the last non-empty one at the domain end) and agree with each other, find_multiplicity returns the number of equal knots, and knotvector.check accepts exactly the non-decreasing vectors of the right length - decided by interpreting the comparison-only skeleton of these functions over every knot order type of the box (OT1-OT3); the single-function routines return 1.0 in the boundary case, the literal 0.0 outside the half-open support, and never an untouched initial cell for derivative orders <= degree inside it, on every fork of their arithmetic zero tests (OT4); [SKEL, bounded] basis_function, basis_function_all and basis_function_ders are index-safe for degrees 1..7, every span and derivative orders 0..degree+2. the list variant find_spans returns for every parameter of a sorted list the span of the single-parameter search (OT1); a delegation wrapper that declares **kwargs forwards them, so the compatibility names in utilities honour clamped=False (KW1).')
+           'find_multiplicity compares absolute differences (TOL1); per-direction helper calls in helpers are direction-uniform (AX1); [ORDER TYPES, bounded box, exact per type] both span searches return exactly the half-open interval containing the parameter (the last non-empty one at the domain end) and agree with each other, find_multiplicity returns the number of equal knots, and knotvector.check accepts exactly the non-decreasing vectors of the right length - decided by interpreting the comparison-only skeleton of these functions over every knot order type of the box (OT1-OT3); the single-function routines return 1.0 in the boundary case, the literal 0.0 outside the half-open support, and never an untouched initial cell for derivative orders <= degree inside it, on every fork of their arithmetic zero tests (OT4); [SKEL, bounded] basis_function, basis_function_all and basis_function_ders are index-safe for degrees 1..7, every span and derivative orders 0..degree+2. the list variant find_spans returns for every parameter of a sorted list the span of the single-parameter search (OT1); a delegation wrapper that declares **kwargs forwards them, so the compatibility names in utilities honour clamped=False (KW1). knotvector.normalize returns a new list on every path (PU6).')
 NOT_DECIDED = ('span search beyond the enumerated box and inside the tolerance windows, non-negativity, partition of unity, derivative sums, Cox-de Boor '
                'equality, order-preservation to rounding: all numerical.')
 TECHNIQUE = 'CFG dominance (guards), polynomial normal forms, comparison-operator lattice, symbolic length algebra'
@@ -39,8 +39,26 @@ def check(m, run):
     run.floor('KC1.check-structure', 4, 'length test, order scan, coverage, final True')
     run.floor('LY4.generate-length', 2, 'clamped / unclamped')
     kw1(m, run)
+    normalize_fresh(m, run)
     run.floor('OT1.span-is-the-half-open-interval', 2, 'linear and binary span search over the order-type box (HO1 is the syntactic fast path and may be absent)')
     run.floor('TOL1.two-sided-tolerance', 2, 'find_multiplicity, binsearch end snap')
+
+
+def normalize_fresh(m, run):
+    """knotvector.normalize returns a new list on every path that returns normally (may-alias analysis): the knot vector setters store its
+    result, so a path that hands the argument back would make every shape built from one knot list share that list"""
+    from ..pure import Purity
+    fi = m.func('knotvector.normalize')
+    s = Purity(m).summary(fi)
+    p0 = params_of(fi.node)[0]
+    alias = sorted((r, l) for r, l in s.ret if r == 'param:' + p0 and l == 0)
+    bad = None
+    for ret in s.returns:
+        if any(r == 'param:' + p0 and l == 0 for r, l in ret[1]):
+            bad = ret[0]
+    run.ob('PU6.normalize-returns-a-new-list', fi.key, not alias, 'the result never is the argument itself' if not alias else
+           '`%s` returns its argument: the setters store this list, so shapes given the same (already normalised) knot list share storage and an edit of '
+           'one knot vector changes the others' % (norm(bad)[:40] if bad is not None else 'a path'), site(fi, bad if bad is not None else fi.node))
 
 
 def kw1_findings(fns, resolve):
